@@ -405,6 +405,49 @@ def stored_name_rule(ctx, mpq, pid):
                 "a file added under a name this changes is hashed, listed and key-derived under another name than the one a reader hashes: it cannot be read back under its own name, and a name that was never added resolves to it")
 
 
+def bit_packing_rule(ctx, mpq, pid):
+    """HET / BET tables are bit-packed: a BET entry is as wide as its four fields together (file position, two sizes, flag index) — more
+    than 64 bits for a few large files — and a field of w bits at an arbitrary bit offset touches up to ceil((7 + w) / 8) bytes.  The
+    builder's packers must cope with both: no entry assembled in one u64, no read-modify-write window cut off at eight bytes"""
+    R = ctx.rule("%s.bit-packed-tables-are-written-without-a-64-bit-ceiling" % pid, "in builder.rs: no u64 accumulates two or more fields with variable shifts (`x |= v << bit_index`), and no bit writer clamps the bytes it rewrites to 8 (`.min(8)` / `i * 8 < 64`)", floor=2)
+    n = 0
+    for f in mpq.fn_list:
+        if not f.hir or f.kind == "Closure" or "::builder::" not in f.path or "::tests::" in f.path:
+            continue
+        body = f.hir["body"]
+        name = f.path.split("::")[-1]
+        if re.search(r"bit", name):
+            n += 1
+            ctx.saw_fn(f)
+            cut = [x for x in hirq.walk(body) if (x.get("k") == "mcall" and x["m"] == "min" and x.get("args") and hirq.const_int(x["args"][0]) == 8)
+                   or (x.get("k") == "bin" and x["op"] == "<" and hirq.const_int(x["r"]) == 64 and re.search(r"\* 8", hirq.render(x["l"])))]
+            if cut:
+                ctx.bad(R, "%s|window-cut-at-8-bytes" % name, "%s:%d" % (f.file, cut[0].get("ln") or 0), "`%s` limits the bytes rewritten for one field to eight" % hirq.render(cut[0])[:40],
+                        "a field of 58..64 bits at an unaligned bit offset spans nine bytes: its top bits are dropped, the archive builds and a file reads back with the wrong position or size")
+            else:
+                ctx.ok(R, {"fn": name, "window": "whole field"})
+        acc = {}
+        for a in hirq.walk(body):
+            if a.get("k") == "assignop" and a.get("op") in ("|=", "BitOr", "|") and hirq.strip(a["l"]).get("k") == "path":
+                r = hirq.strip(a["r"])
+                if r.get("k") == "bin" and r["op"] == "<<" and hirq.const_int(r["r"]) is None:
+                    loc = hirq.strip(a["l"])["res"].get("local")
+                    acc.setdefault(loc, []).append(a)
+        for loc, sites in acc.items():
+            if len(sites) < 2:
+                continue
+            n += 1
+            ctx.saw_fn(f)
+            ty = mpq.ty(hirq.strip(sites[0]["l"]).get("t")) or ""
+            if ty in ("u64", "u32", "usize"):
+                ctx.bad(R, "%s|entry-in-%s" % (name, ty), "%s:%d" % (f.file, sites[0].get("ln") or 0), "`%s` (%s) collects %d fields at variable bit positions" % (loc, ty, len(sites)),
+                        "when the fields together are wider than the integer (three incompressible 3 MiB files already give a 69-bit BET entry) the shift overflows: build() panics, or without overflow checks writes a corrupt table")
+            else:
+                ctx.ok(R, {"fn": name, "accumulator": "%s: %s" % (loc, ty)})
+    if n == 0:
+        ctx.bad(R, "builder|no-bit-packing", "-", "no bit-packing code found in builder.rs", "shape changed")
+
+
 def het_bet_writer_matches_reader_rule(ctx, mpq, pid):
     fns = mpq.fns
     M = "wow_mpq::"
@@ -608,6 +651,7 @@ def run(ctx):
     cipher_block_extent_rule(ctx, mpq, "C01")
     het_candidate_confirmed_rule(ctx, mpq, "C01")
     stored_name_rule(ctx, mpq, "C01")
+    bit_packing_rule(ctx, mpq, "C01")
     from .c06 import version_gate_rule
     version_gate_rule(ctx, mpq, "C01", r"::builder::")
     from .c03 import never_expands_rule
